@@ -42,7 +42,11 @@ func ruleTreeWriters(r *core.Reporter) {
 		"id":       {"pkg/models.NewItem": true},
 		"url":      {"pkg/models.NewItem": true},
 	}
-	for field, ok := range allowed {
+	for field, ok0 := range allowed {
+		ok := map[string]bool{}
+		for n := range ok0 {
+			ok[p.CurrentName(n)] = true // follows pure renames
+		}
 		sts := itemFieldStores(p, field)
 		bad := 0
 		writers := map[string]bool{}
